@@ -101,7 +101,9 @@ async def run_superstep_async(
     # PauseExecution extends BaseException, so if raised inside asyncio.gather
     # it cancels all sibling tasks. By isolating interrupt nodes, other ready
     # nodes are deferred to the next superstep where they'll still be ready.
-    interrupts = [n for n in ready_nodes if n.is_interrupt]
+    # A nested graph that contains an interrupt can pause in the same way, so it
+    # is isolated too: a sibling run beside it would lose its outputs on the pause.
+    interrupts = [n for n in ready_nodes if n.is_interrupt or (n.nested_graph is not None and n.nested_graph.has_interrupts)]
     if interrupts:
         ready_nodes = [interrupts[0]]
 
